@@ -47,6 +47,7 @@ func vwCounters(r *ev.R, st *vwStats) {
 		"observation_ack_by_leader_older_than_installed_elsewhere": st.crossNodeDeposedAck.Load(),
 		"retry_refused_under_higher_authority": st.retryRefusedHigherAuthority.Load(),
 		"committed_pairs_compared": st.committedPairsCompared.Load(), "entry_digests_verified": st.chainEntriesVerified.Load(),
+		"observation_rejected_conflicting_retry_left_uncommitted_row_on_non_holder": st.conflictGarbageRow.Load(),
 		"commit_backpressured": st.commitBackpressured.Load(), "commit_quorum_unavailable": st.commitUnavailable.Load(),
 	}
 	for k, v := range c {
